@@ -6,7 +6,8 @@
    Objects live in slots (any natural number is a slot; a slot is dead, or alive holding fd_ = -1
    (None) or a number).  The kernel keeps a table number -> identity of the open resource; every
    open gets a fresh identity; with reuse = true a new descriptor gets the LOWEST FREE number
-   (open(2)), with reuse = false a number never used before (mappings, compared by allocation).
+   (open(2)), with reuse = false a number never used before: the allocation's serial number (mappings,
+   compared by allocation).
    Initially 0, 1, 2 are open and belong to somebody else; OOther lets somebody else open one more
    descriptor at any time.  close(n) on a number that is not open fails (EBADF) and is logged.
 
@@ -64,7 +65,8 @@ Fixpoint lmax (l : list nat) : nat :=
   end.
 
 Definition alloc (reuse : bool) (s : st) : nat :=
-  if reuse then lowest_free (keys s) else S (lmax (keys s)).
+  if reuse then lowest_free (keys s)
+  else if Nat.leb (next_id s) (lmax (keys s)) then S (lmax (keys s)) else next_id s.
 
 Fixpoint lookup (n : nat) (t : list (nat * nat)) : option nat :=
   match t with
